@@ -1,8 +1,38 @@
 package main
 
 import (
+	"bytes"
 	"fmt"
+	"os"
+
+	webp "github.com/deepteams/webp"
 	"verif/lw"
+	"verif/riffwalk"
+	"verif/ximage"
 )
 
-func main() { fmt.Println(lw.SelfTest()); fmt.Printf("%+v\n", lw.DefaultConfig()) }
+func main() {
+	if len(os.Args) < 2 {
+		fmt.Println(lw.SelfTest())
+		return
+	}
+	b, _ := os.ReadFile(os.Args[1])
+	_, _, _, e1 := lw.DecodeRGBA(b)
+	fmt.Println("libwebp:", e1)
+	_, e2 := webp.Decode(bytes.NewReader(b))
+	fmt.Println("repo:", e2)
+	_, e3 := ximage.Decode(b)
+	fmt.Println("ximage:", e3)
+	info, iss := riffwalk.Walk(b)
+	fmt.Println("walk:", iss)
+	if info != nil && len(info.Frames) > 0 && info.Frames[0].BS != nil {
+		bs := info.Frames[0].BS
+		fmt.Printf("%+v\n", *bs)
+		p := bs.Data
+		tbl := 10 + bs.Part0Len
+		for i := 0; i < bs.Partitions-1; i++ {
+			fmt.Print(int(p[tbl+3*i])|int(p[tbl+3*i+1])<<8|int(p[tbl+3*i+2])<<16, " ")
+		}
+		fmt.Println("payload", len(p), "tbl", tbl)
+	}
+}
